@@ -1210,6 +1210,29 @@ class Interp:
                 continue
         self.exec_block(s.orelse, fr)
 
+    @staticmethod
+    def _later_reads(func_node, end_lineno):
+        """names read after line `end_lineno` in the function, not counting names that a comprehension re-binds for itself"""
+        out = set()
+
+        def visit(n, shadow):
+            if isinstance(n, (ast.ListComp, ast.SetComp, ast.GeneratorExp, ast.DictComp)):
+                own = {t.id for g in n.generators for t in ast.walk(g.target) if isinstance(t, ast.Name)}
+                for g in n.generators:
+                    visit(g.iter, shadow)           # (the first iterable is evaluated outside; harmless over-approximation)
+                    for c in g.ifs:
+                        visit(c, shadow | own)
+                for part in ([n.elt] if not isinstance(n, ast.DictComp) else [n.key, n.value]):
+                    visit(part, shadow | own)
+                return
+            if isinstance(n, ast.Name) and isinstance(n.ctx, ast.Load) and getattr(n, 'lineno', 0) > end_lineno \
+                    and n.id not in shadow:
+                out.add(n.id)
+            for ch in ast.iter_child_nodes(n):
+                visit(ch, shadow)
+        visit(func_node, frozenset())
+        return out
+
     # ---- search loops: `for x in seq: if c(x): return v` executed as `if any(c(x) for x in seq): return v`
     def _search_loop(self, s, fr):
         """body = optional local bindings, then ONE `if c: return v` (no else) where v does not depend on the loop variable
@@ -1236,8 +1259,7 @@ class Interp:
         if ret.value is not None and any(isinstance(n, ast.Name) and n.id in local for n in ast.walk(ret.value)):
             return None
         if fr.func is not None:
-            later = {n.id for n in ast.walk(fr.func.node) if isinstance(n, ast.Name) and isinstance(n.ctx, ast.Load)
-                     and n.lineno > s.end_lineno}
+            later = self._later_reads(fr.func.node, s.end_lineno)
             if local & later:
                 return None
         test = Sub().visit(copy.deepcopy(body[0].test))
@@ -1293,11 +1315,13 @@ class Interp:
                     bound.add(st.targets[0].id)
                     continue
                 if isinstance(st, ast.Expr) and isinstance(st.value, ast.Call) and isinstance(st.value.func, ast.Attribute) \
-                        and st.value.func.attr == 'append' and isinstance(st.value.func.value, ast.Name) \
+                        and st.value.func.attr in ('append', 'add') and isinstance(st.value.func.value, ast.Name) \
                         and len(st.value.args) == 1 and not st.value.keywords:
-                    if not last or names['lst'] not in (None, st.value.func.value.id):
+                    if not last or names['lst'] not in (None, st.value.func.value.id) \
+                            or names.get('method') not in (None, st.value.func.attr):
                         return None
                     names['lst'] = st.value.func.value.id
+                    names['method'] = st.value.func.attr
                     return [(None, subst(st.value.args[0], env))]
                 if isinstance(st, ast.If):
                     c = subst(st.test, env)
@@ -1327,8 +1351,7 @@ class Interp:
         # names bound in the body (and the loop target) must not be read after the loop
         target_names = {n.id for n in ast.walk(s.target) if isinstance(n, ast.Name)}
         if fr.func is not None:
-            later = {n.id for n in ast.walk(fr.func.node) if isinstance(n, ast.Name) and isinstance(n.ctx, ast.Load)
-                     and n.lineno > s.end_lineno}
+            later = self._later_reads(fr.func.node, s.end_lineno)
             if (bound | target_names) & later:
                 return None
         elt = alts[-1][1]
@@ -1337,8 +1360,9 @@ class Interp:
         keep = None
         if not total['all_paths_append'] and all(g is not None for g, _ in alts):
             keep = alts[0][0] if len(alts) == 1 else ast.BoolOp(op=ast.Or(), values=[copy.deepcopy(g) for g, _ in alts])
-        comp = ast.ListComp(elt=elt, generators=[ast.comprehension(target=copy.deepcopy(s.target), iter=copy.deepcopy(s.iter),
-                                                                    ifs=[keep] if keep is not None else [], is_async=0)])
+        kind = ast.SetComp if names.get('method') == 'add' else ast.ListComp      # `s.add(e)` loops build a set comprehension
+        comp = kind(elt=elt, generators=[ast.comprehension(target=copy.deepcopy(s.target), iter=copy.deepcopy(s.iter),
+                                                           ifs=[keep] if keep is not None else [], is_async=0)])
         ast.copy_location(comp, s)
         ast.fix_missing_locations(comp)
         return names['lst'], comp
@@ -1366,7 +1390,18 @@ class Interp:
                 al = self._append_loop(s, fr)
                 if al is not None:
                     lst_name, comp = al
-                    self.call(self.getattr(self.lookup(lst_name, fr), 'extend'), [self.ev(comp, fr)])
+                    cur = self.lookup(lst_name, fr)
+                    if isinstance(comp, ast.SetComp):
+                        # only for a set that is still empty: it IS the comprehension afterwards
+                        if isinstance(cur, B.SetV) and cur.items is not None and len(cur.items) == 0:
+                            ok_, _ = fr.lookup(lst_name)
+                            f_ = fr
+                            while f_ is not None and lst_name not in f_.vars:
+                                f_ = f_.parent
+                            (f_ or fr).vars[lst_name] = self.ev(comp, fr)
+                            return
+                        raise Unsupported('set.add loop on a set that is not empty')
+                    self.call(self.getattr(cur, 'extend'), [self.ev(comp, fr)])
                     return
                 raise Unsupported('symbolic-length for loop mutating a container needs a loop contract')
         for n in ast.walk(s.target):
